@@ -4,7 +4,7 @@
 def generate(G):
     L = G.leaf
     progs = [("mul", "Mul", [L([2]), L([2])], "quick", 6), ("muladdshare", "MulAddShare", [L([2]), L([2])], "quick", 6),
-             ("square", "Square", [L([2])], "quick", 6), ("bcast", "Mul", [L([2]), L([2, 2], "D2")], "quick", 8),
+             ("square", "Square", [L([2])], "quick", 6), ("bcast", "Mul", [L([2]), L([1, 2], "D4")], "quick", 8), ("bcast2x2", "Mul", [L([2]), L([2, 2], "D2")], "thorough", 8),
              ("diamond", "Diamond", [L([2], "D2"), L([2], "D2")], "thorough", 6), ("sum1", "Sum(1)", [L([2, 2])], "thorough", 8),
              ("matmul", "Matmul { at: false, bt: true, c: false }", [L([1, 2], "D2"), L([2, 2], "D2")], "thorough", 8),
              ("neg", "Neg", [L([2])], "thorough", 6), ("untracked", "MulAddShare", [L([2]), L([2], tracked=False)], "thorough", 6)]
